@@ -8,9 +8,10 @@ S5  property oracle on SPDC::as_config before / after, unknown paths, sweep orde
 """
 import math
 from vlib.common import *
+from vlib.fresh import up_to_date
 
 C_LIGHT = 299792458.0
-IMPORTS = ("From SpdVerif Require Import Base.Rx Base.PolingBase Gen.Poling Gen.Sweep Spec.SweepPaths Model.Sweep Proofs.C18_table Proofs.C18_frame Proofs.C18_tac.\n"
+IMPORTS = ("From SpdVerif Require Import Base.Rx Base.PolingBase Gen.Poling Gen.Sweep Spec.SweepPaths Model.Sweep Proofs.C18_angles Proofs.C18_tac.\n"
            "Import ListNotations.\nLocal Open Scope string_scope.\n")
 
 # the property's table (mirrors Spec/SweepPaths.v; the Coq side proves the generated table against that file)
@@ -429,10 +430,11 @@ def run(ctx):
     oracle(ctx, obs)
     for o in [x for x in obs if x["kind"] == "set"][:3]:
         ctx.sample({"base": o["base"], "path": o["path"], "value": fh(o["v"]), "config_changes": cfg_diff(o["before"], o["after"])})
-    if all(os.path.exists(os.path.join(COQ, p)) for p in ("Gen/Sweep.vo", "Proofs/C18_tac.vo")):
+    if up_to_date("Gen/Sweep.vo", "Proofs/C18_tac.vo"):
         correspondence(ctx, obs, "")
     else:
-        ctx.note("correspondence cases skipped: generated model or case tactics did not compile")
+        ctx.note("correspondence cases skipped: the generated model or the case tactics are not up to date with this run "
+                 "(a proof obligation upstream is broken; that obligation is the finding)")
     if (not proved or ctx.case_failures) and not any(v["found_input"] for v in ctx.violations):
         ctx.log("S5 deep search for a failing input (proof obligations or correspondence are broken)")
         for k in range(2):
